@@ -751,6 +751,11 @@ class Generator:
         for m in re.finditer("\n", src):
             offs.append(m.end())
         self._cur = (relfile, src, toks, offs)
+        # constants and statics of the file: a stubbed function's assumed contract was written for these values too
+        self._file_consts = []
+        for it in items:
+            if it.kind in ("const", "static") and not it.is_test:
+                self._file_consts += [toks[k].text for k in sig_idx(toks, it.a0, it.end)]
         self.out.add("\n// ===== %s (extracted from the working tree) =====\n" % relfile, None)
         for it in items:
             self._emit_item(it, only, canary, extra_rules)
@@ -914,7 +919,7 @@ class Generator:
             self.unverified.append({"file": relfile, "item": fnpath, "reason": blk.stub})
         elif blk is not None and blk.stub:
             import hashlib
-            body_sha = hashlib.sha1(" ".join(alpha_normalised(toks, it.a0, it.end)).encode()).hexdigest()[:16]
+            body_sha = hashlib.sha1(" ".join(alpha_normalised(toks, it.a0, it.end) + getattr(self, "_file_consts", [])).encode()).hexdigest()[:16]
             info["stub_sha"] = body_sha
             self.unverified.append({"file": relfile, "item": fnpath, "reason": "R-stub-body: " + blk.stub, "body_sha": body_sha})
         elif self.stub_all:
